@@ -455,6 +455,37 @@ CLAIMED = {
                 'equality of as_dict(); values outside the alphabet are not '
                 'covered.',
  },
+ 'C20': {
+  'engine'    : 'sched',
+  'category'  : 'model_checking',
+  'design_ref': 'DESIGN.md 4 (C20), 10.8',
+  'technique' : 'stateless model checking of the real raptor worker threads '
+                'and fake worker processes under the controlled scheduler '
+                '(delay-bounded); exhaustive enumeration for master routing, '
+                'scheduler forwarding and dispatchers',
+  'text'      : '(a) The real DefaultWorker._request_cb/_alloc/_dealloc/'
+                '_result_watcher/_result_cb/_dispatch/_worker_proc run as '
+                'controlled threads; mp.Process becomes a fake process with '
+                'its own pid/environ/cwd running the real target on a deep '
+                'copy; every schedule within the deviation bound is executed '
+                'for 624 (thorough 1965) workloads (1-3 requests, demands up '
+                'to the worker size, payloads ok/fail/raise/hang+timeout/'
+                'finish-near-timeout/process dies/fork fails, one or two '
+                'request streams): slots of concurrently running requests '
+                'are disjoint and inside the allotment, one truthful result '
+                'per accepted request, resources and pool empty at '
+                'quiescence, watcher alive.  (b) Master routing by mode, '
+                '_result_cb exit-code -> target state, round trips in every '
+                'return order; scheduler raptor forwarding over all event '
+                'sequences (register/unregister/cancel/arrivals).  (c) all '
+                'singles and pairs of 112 request payloads through the real '
+                'per-mode dispatchers: (out, err, ret, val, exc) truthful, '
+                'process environment (libc environ, confirmed by a child) '
+                'and stdio restored before the next request.',
+  'note'      : 'Fake processes are preempted at synchronisation operations '
+                '(line-level only in one-request scenarios); oversize demands '
+                'are outcomes, not clauses; MPI workers are not explored.',
+ },
 }
 
 NOT_APPLICABLE = {
